@@ -663,7 +663,9 @@ class Gen:
             # a second window directly on top of the first (limit/offset composition, possibly empty)
             tv2 = self.derive(tv)
             tv2.limit = True
-            self.stmts.append(dict(id=tv2.tid, op="slice_head", src=tv.tid, n=r.choice([0, 1, 2, 3]), offset=r.choice([0, 1, 2, 3])))
+            n1 = self.stmts[-1]["n"]
+            # the second offset may lie beyond the first window (empty result; the combined LIMIT must not go negative)
+            self.stmts.append(dict(id=tv2.tid, op="slice_head", src=tv.tid, n=r.choice([0, 1, 2, 3]), offset=r.choice([0, 1, 2, 3, n1 + 1 if n1 < 50 else 1])))
             self.register(tv2)
             return tv2
         return tv
@@ -901,6 +903,7 @@ PROFILES = {
     "agg": dict(mutate=3, mutate_window=2, filter=3, select=1, rename=1, arrange=3, slice=2, group_by=5, ungroup=1, summarize=6, alias=2),
     "window": dict(mutate=2, mutate_window=6, filter=3, select=2, rename=1, arrange=3, slice=2, group_by=3, ungroup=2, alias=2),
     "join": dict(mutate=3, filter=3, select=2, rename=2, arrange=1, join=6, alias=2, union=2, mutate_window=1, summarize=1, group_by=1),
+    "slices": dict(arrange=3, slice=7, filter=2, mutate=2, select=1, rename=1),
     "union": dict(mutate=3, filter=3, select=2, drop=1, rename=2, arrange=1, slice=1, union=6, alias=1),
     "subquery": dict(mutate=2, mutate_window=4, filter=4, arrange=2, slice=4, group_by=3, summarize=4, alias=4, join=2, union=1, ungroup=1),
 }
@@ -1072,6 +1075,30 @@ def _scenario(seed: int, kind: str):
             cols.reverse()
         S(id=t2, op="summarize", src=t1, cols=cols)
         S(id="x1", op="export", src=t2, target="polars", ordered=False)
+    elif kind == "scen_selfjoin_agg":
+        # "join the aggregate back": a table joined with a summary of itself (through alias()); verbs after
+        # the join use columns of the origin that the summary dropped
+        a = table("src0", [("a", "int"), ("b", "int"), ("s", "string")])
+        g1, s1, al, j, m = (g.fresh_t() for _ in range(5))
+        key = r.choice(["a", "s"])
+        left = a.tid
+        if r.random() < 0.4:
+            left = g.fresh_t()
+            S(id=left, op=r.choice(["filter", "mutate"]), src=a.tid,
+              **(dict(preds=[{"fn": "is_not_null", "args": [{"col": [a.tid, "id"]}]}]) if g.stmts is None else {}))
+            g.stmts[-1].update(dict(preds=[{"fn": "greater_than", "args": [{"col": [a.tid, "id"]}, {"lit": 0}]}]) if g.stmts[-1]["op"] == "filter"
+                               else dict(cols=[["w0", {"fn": "add", "args": [{"col": [a.tid, "b"]}, {"lit": 1}]}]]))
+        S(id=g1, op="group_by", src=a.tid, cols=[{"col": [a.tid, key]}])
+        agg = r.choice(["max", "min", "sum"])
+        S(id=s1, op="summarize", src=g1, cols=[["m", {"fn": agg, "args": [{"col": [a.tid, "b"]}]}], ["n", {"fn": "count_star", "args": []}]])
+        S(id=al, op="alias", src=s1, **({"name": "agg"} if r.random() < 0.5 else {}))
+        how = r.choice(["inner", "left", "inner"])
+        S(id=j, op="join", src=left, right=al, on=[{"fn": "equal", "args": [{"col": [a.tid, key]}, {"col": [al, key]}]}], how=how)
+        S(id=m, op="mutate", src=j, cols=[["d", {"fn": "sub", "args": [{"col": [al, "m"]}, {"col": [a.tid, "b"]}]}],
+                                         ["b2", {"col": [a.tid, "b"]}], ["n2", {"col": [al, "n"]}]])
+        f = g.fresh_t()
+        S(id=f, op="arrange", src=m, by=[{"col": [a.tid, "id"]}])
+        S(id="x1", op="export", src=f, target="polars", ordered=True)
     else:
         raise ValueError(kind)
     p = g.program()
